@@ -317,7 +317,7 @@ fn main() {
     }
     let table = build_table();
     if let Some(v) = ctx.replay_case() {
-        guard::enter(&v.to_string());
+        let _guard_scope = guard::scoped(&v.to_string());
         let r = if v["sys"] == "inplace" {
             inplace_dispatch(v["frame"].as_str().unwrap_or(""), v["la"].as_u64().unwrap_or(0) as usize, v["lb"].as_u64().unwrap_or(0) as usize)
         } else {
@@ -338,7 +338,7 @@ fn main() {
         // every L up to 3N+2, plus two long slices (scale probes)
         for l in (0..=3 * n + 2).chain([100 * n, 100 * n + 1]) {
             let case = json!({"sys": "view", "fmt": fmt, "n": n, "l": l});
-            guard::enter(&case.to_string());
+            let _guard_scope = guard::scoped(&case.to_string());
             evals += 1;
             let f = *f;
             match catch(|| f(l)) {
@@ -358,7 +358,7 @@ fn main() {
         for la in 0..=maxl {
             for lb in 0..=maxl {
                 let case = json!({"sys": "inplace", "frame": name, "la": la, "lb": lb});
-                guard::enter(&case.to_string());
+                let _guard_scope = guard::scoped(&case.to_string());
                 evals += 1;
                 match catch(|| inplace_dispatch(name, la, lb)) {
                     Ok(None) => ctx.observe(common::fnv_str(&format!("ip{name}{la}/{lb}"))),
